@@ -39,16 +39,19 @@ theorem C01_isMatchBoundedBacktracker_iff {O : MetaFind2.Oracles2} {P : MetaFind
   | some se => exact ⟨fun _ => ⟨se.1, se.2, rfl⟩, fun _ => rfl⟩
 
 /-- `isMatchTeddy` / `isMatchAhoCorasick` (meta/ismatch.go l.265-278, 336-342): a candidate of the COMPLETE prefilter is a
-    match; the automata's `IsMatch` are exact -/
-theorem C01_teddy_ahoCorasick_isMatch_iff {O : MetaFind2.Oracles2} {P : MetaFind2.Params2} {Mt : Bytes → Nat → Nat → Prop}
-    {ref : Bytes → Nat → Option MetaFind.Span} {h : Bytes} (R : MetaFind.RefOK Mt ref h)
+    match; the small-haystack automaton's `IsMatch` is exact; `ahoCorasick.IsMatch` answers iff some literal of `lits` occurs
+    (`AhoIsMatchOK`, a statement about OCCURRENCES — what the dependency computes) and the matches are these occurrences
+    (`hmt`) -/
+theorem C01_teddy_ahoCorasick_isMatch_iff {O : MetaFind2.Oracles2} {P : MetaFind2.Params2} {lits : List Bytes}
+    {Mt : Bytes → Nat → Nat → Prop} {ref : Bytes → Nat → Option MetaFind.Span} {h : Bytes} (R : MetaFind.RefOK Mt ref h)
     (hpf : P.hasPrefilter = true → MetaFind.PfOK O.toOracles Mt h)
     (hpc : P.hasPrefilter = true → ∀ p, O.pfFind h 0 = some p → (ref h 0).isSome = true)
     (hfat : MetaFind2.useFatFallback P h = true → O.fatIsMatch h = (ref h 0).isSome)
     (hn : P.hasPrefilter = false → MetaFind.isMatchNFA O.toOracles P.toParams h = (ref h 0).isSome)
-    (ha : P.hasAho = true → O.ahoIsMatch h = (ref h 0).isSome)
+    (hmt : P.hasAho = true → ∀ s e, Mt h s e ↔ MetaFind2.LitOcc lits h s e)
+    (ha : P.hasAho = true → MetaFind2.AhoIsMatchOK O lits h)
     (hn' : P.hasAho = false → MetaFind.isMatchNFA O.toOracles P.toParams h = (ref h 0).isSome) :
     MetaFind2.isMatchTeddy O P h = (ref h 0).isSome ∧ MetaFind2.isMatchAhoCorasick O P h = (ref h 0).isSome :=
-  ⟨MetaFind2.isMatchTeddy_eq_ref R hpf hpc hfat hn, MetaFind2.isMatchAhoCorasick_eq_ref ha hn'⟩
+  ⟨MetaFind2.isMatchTeddy_eq_ref R hpf hpc hfat hn, MetaFind2.isMatchAhoCorasick_eq_ref R hmt ha hn'⟩
 
 end Cx.C01
